@@ -257,25 +257,30 @@ inductive DInterval where
   | calendar (u : CalUnit)
 deriving DecidableEq, Repr
 
-/-- `truncate_calendar` (epoch milliseconds) -/
-def truncCalendar (v : Int) (u : CalUnit) : Int :=
+/-- `truncate_calendar` (epoch milliseconds).  `strict = true` is the code: the quarter branch
+calls `date.with_month(quarter_start)?` *before* `with_day(1)`, which fails when the quarter's
+first month is shorter than the day of the month (May 31 → "April 31"): the value then has no
+bucket.  `strict = false` is the reference. -/
+def truncCalendar (strict : Bool) (v : Int) (u : CalUnit) : Option Int :=
   let days := v / msPerDay
   let c := civilFromDays days
-  let start := match u with
-    | .day => days
-    | .week => days - (days + 3) % 7
-    | .month => daysFromCivil c.1 c.2.1 1
-    | .quarter => daysFromCivil c.1 (((c.2.1 - 1) / 3) * 3 + 1) 1
-    | .year => daysFromCivil c.1 1 1
-  start * msPerDay
+  match u with
+  | .day => some (days * msPerDay)
+  | .week => some ((days - (days + 3) % 7) * msPerDay)
+  | .month => some (daysFromCivil c.1 c.2.1 1 * msPerDay)
+  | .quarter =>
+    let qs := ((c.2.1 - 1) / 3) * 3 + 1
+    let dim : Int := if qs = 4 then 30 else 31
+    if strict && decide (dim < c.2.2) then none else some (daysFromCivil c.1 qs 1 * msPerDay)
+  | .year => some (daysFromCivil c.1 1 1 * msPerDay)
 
 /-- `bucket_start`: fixed intervals label a value with the next multiple of the step at or above
 it (`ceil`, as the code and its test suite have it), calendar intervals with the start of the
 unit -/
-def dateBucket (iv : DInterval) (offset v : Int) : Int :=
+def dateBucket (strict : Bool) (iv : DInterval) (offset v : Int) : Option Int :=
   match iv with
-  | .fixed step => (-((-(v - offset)) / step)) * step + offset
-  | .calendar u => truncCalendar (v - offset) u + offset
+  | .fixed step => some ((-((-(v - offset)) / step)) * step + offset)
+  | .calendar u => (truncCalendar strict (v - offset) u).map (· + offset)
 
 /-- `add_interval` / `add_calendar` (the time of day of `cur` is dropped by the calendar units) -/
 def addInterval (iv : DInterval) (cur : Int) : Int :=
@@ -328,12 +333,12 @@ inductive BSpec (φ κ : Type) where
   | hist (f : φ) (interval offset : Rat) (minDoc : Nat) (ext hard : Option (Rat × Rat))
       (missing : Option Rat)
   | dhist (f : φ) (iv : DInterval) (offset : Int) (minDoc : Nat) (ext hard : Option (Int × Int))
-      (missing : Option Int) (aligned : Bool)
+      (missing : Option Int) (ideal : Bool)
   | filter (p : Pred φ κ)
   | composite (srcs : List (CSrc φ)) (size : Nat) (after : Option (List (Part κ)))
 
 /-- the request as the reference semantics reads it (composite histogram sources see every
-numeric column; the date_histogram bounds fill keeps the offset) -/
+numeric column; date_histogram: the bounds fill keeps the offset and every value has a quarter) -/
 def BSpec.ideal {φ κ : Type} : BSpec φ κ → BSpec φ κ
   | .composite srcs size after => .composite (srcs.map CSrc.ideal) size after
   | .dhist f iv offset minDoc ext hard missing _ => .dhist f iv offset minDoc ext hard missing true
@@ -411,11 +416,11 @@ def keysOf (b : BSpec φ κ) (d : Doc φ κ) : List (Key κ) :=
         match hard with
         | some (lo, hi) => !(decide (v < lo) || decide (hi < v))
         | none => true)).map (fun v => Key.num (histId interval offset v))
-  | .dhist f iv offset _ _ hard missing _ =>
+  | .dhist f iv offset _ _ hard missing ideal =>
     (((numVals f (missing.map (fun (m : Int) => (m : Rat))) d).map truncToInt).filter (fun v =>
         match hard with
         | some (lo, hi) => !(decide (v < lo) || decide (hi < v))
-        | none => true)).map (fun v => Key.num (dateBucket iv offset v))
+        | none => true)).filterMap (fun v => (dateBucket (!ideal) iv offset v).map Key.num)
   | .filter p => if p.eval d then [Key.unit] else []
   | .composite srcs _ _ =>
     let per := srcs.map (srcParts d)
@@ -432,15 +437,16 @@ def extraKeys (b : BSpec φ κ) : List (Key κ) :=
     match ext.or hard with
     | some (lo, hi) => (idRange (histId interval offset lo) (histId interval offset hi)).map Key.num
     | none => []
-  | .dhist _ iv offset _ ext hard _ aligned =>
+  | .dhist _ iv offset _ ext hard _ ideal =>
     match ext.or hard with
     | some (lo, hi) =>
-      let a := dateBucket iv offset lo
-      let b := dateBucket iv offset hi
-      let start := if b < a then b else a
-      let stop := if b < a then a else b
-      let minStep : Int := match iv with | .fixed step => step | .calendar _ => msPerDay
-      (fillFrom (fillStep iv offset aligned) start stop (((stop - start) / minStep).toNat + 2)).map Key.num
+      match dateBucket (!ideal) iv offset lo, dateBucket (!ideal) iv offset hi with
+      | some a, some b =>
+        let start := if b < a then b else a
+        let stop := if b < a then a else b
+        let minStep : Int := match iv with | .fixed step => step | .calendar _ => msPerDay
+        (fillFrom (fillStep iv offset ideal) start stop (((stop - start) / minStep).toNat + 2)).map Key.num
+      | _, _ => []
     | none => []
   | .filter _ => [Key.unit]
   | _ => []
